@@ -228,6 +228,14 @@ def run(ctx, rep):
                 # unreachable!() }` states what `xs.first().expect(..)` states — the construct is reached only when the
                 # required list is empty, and the table's discharge (clap `required`) is about that list
                 ent = emptiness_assertion(ctx, table, s, prog)
+            if ent is None and s['kind'] in ('index', 'mutate-at') and s['file'].endswith('topsort.rs'):
+                # index arithmetic of the sorting algorithm: its sites are table entries with a *written* argument (DESIGN D.8: not
+                # machine-checked).  When the function an entry names no longer exists the algorithm was rewritten: the written
+                # argument does not carry over — no verdict on the new indexing, rather than a finding
+                gone = [e_ for e_ in table['sites'] if e_.get('file') == 'topsort.rs' and e_['kind'] in ('index', 'mutate-at') and e_.get('fn')
+                        and not any(b_['id'].endswith(e_['fn']) or e_['fn'].split('::')[0] + '::' in b_['id'] + '::' and b_['id'].split('::{')[0].endswith(e_['fn'].split('::')[-1]) for b_ in prog.bodies.values())]
+                if gone:
+                    raise core.Incomplete(f"P2: the index arithmetic of topsort.rs was rewritten ({gone[0]['fn']} no longer exists): `{s['snippet'][:40]}` in {s['fn']} has no written bound argument — not decided")
             if ent is None:
                 rep.fail('P2', key, f"unclassified panic-capable construct `{s['snippet'][:100]}` ({s['kind']}, {s['callee'][:70]}) in {s['fn']}; reached via {path}", site)
             elif ent['class'] == 'guarded':
